@@ -76,6 +76,8 @@ def cases(ctx):
         yield "function", {"cls": cls.__name__, "seed": ctx.subseed(cls.__name__), "extra": ctx.pick(DIMS_LARGE_QUICK, DIMS_LARGE),
                            "n_random": ctx.pick(2000, 4000), "starts": ctx.pick(10, 16)}
     for cls in functions():
+        yield "diagonal", {"cls": cls.__name__, "seed": ctx.subseed("dg", cls.__name__), "dims": ctx.pick([1000], [257, 720, 1000, 3000])}
+    for cls in functions():
         yield "long_history", {"cls": cls.__name__, "seed": ctx.subseed("lh", cls.__name__), "points": ctx.pick(20000, 70000)}
     if not ctx.quick:
         for cls in functions():
@@ -94,6 +96,55 @@ def run_case(ctx, name, params):
         return
     r = ctx.rng("fn", params["seed"])
     vrng.install(vrng.SeededRandom(params["seed"]))
+    if name == "diagonal":
+        # very high dimensions, structured points: all coordinates equal (or alternating in sign) -- sums and products over the
+        # coordinates reach their extremes there, random points average them out
+        for d_ in params["dims"]:
+            p = instantiate(cls, d_)
+            if p is None or len(p.parameters) != d_ or len(p.costs) != 1:
+                continue
+            box = [tuple(q["bounds"]) for q in p.parameters]
+            lb0, ub0 = box[0]
+            if any(b != box[0] for b in box):
+                continue
+            # a function whose values at the two far corners of the box do not fit a double in this dimension (Perm: d**(2d)) has no
+            # finite cost to return there in the first place: such (function, dimension) pairs are outside "supported dimensions"
+            try:
+                far = [float(p.evaluate(Individual([e_] * d_))[0]) for e_ in (lb0, ub0)]
+            except OverflowError:
+                far = [math.inf]
+            if not all(math.isfinite(v_) for v_ in far):
+                ctx.count("diagonal_variants_skipped_value_range_exceeds_a_double")
+                continue
+            ctx.count("diagonal_variants")
+            opt = getattr(p, "global_optimum", None)
+            sign = -1.0 if p.costs[0].get("criteria", "minimize") != "minimize" else 1.0
+            ts = [lb0, ub0, (lb0 + ub0) / 2] + [lb0 + r.random() * (ub0 - lb0) for _ in range(60)] + \
+                 [math.sqrt(k_ * math.pi / 2) for k_ in range(1, 40) if lb0 <= math.sqrt(k_ * math.pi / 2) <= ub0]
+            for t in ts:
+                for alt in (False, True):
+                    if alt and not (lb0 <= -t <= ub0):
+                        continue
+                    x = [(-t if (alt and i % 2) else t) for i in range(d_)]
+                    ctx.count("diagonal_points")
+                    try:
+                        v = float(p.evaluate(Individual(x))[0])
+                    except Exception as e:
+                        ctx.violation("C15/%s/totality/exception/%s" % (cls.__name__, type(e).__name__), "%s(dimension %d).evaluate raised %r on a "
+                                      "point of its box" % (cls.__name__, d_, e), {"function": cls.__name__, "dimension": d_, "t": t, "alternating": alt})
+                        return
+                    if not math.isfinite(v):
+                        ctx.violation("C15/%s/totality/not_finite_scalar" % cls.__name__, "%s(dimension %d) returned %r at the box point with all "
+                                      "coordinates %s%r" % (cls.__name__, d_, v, "+-" if alt else "", t),
+                                      {"function": cls.__name__, "dimension": d_, "t": t, "alternating": alt})
+                        return
+                    if opt is not None and cls.__name__ not in ("XinSheYang3", "ModifiedEasom") and sign * v < sign * opt - TOL:
+                        ctx.violation("C15/%s/bound/%s" % (cls.__name__, "declared_" + ("maximize" if sign < 0 else "minimize")),
+                                      "%s(dimension %d): value %r at the point with all coordinates %s%r is better than the documented optimum %r"
+                                      % (cls.__name__, d_, v, "+-" if alt else "", t, opt), {"function": cls.__name__, "dimension": d_, "t": t})
+                        return
+        ctx.count("cases")
+        return
     if name == "long_history":
         # one benchmark object over a long run: sentinel points are evaluated first, then again after every 4096 evaluations of
         # other points and at the end; every answer must be the first one (the randomised Xin-She-Yang-3 function is exempt)
@@ -170,6 +221,22 @@ def run_case(ctx, name, params):
                 else:
                     ind = state["ind"] = Individual(vec)
                 res = p.evaluate(ind)
+                prev_ = state.get("kept")
+                if prev_ is not None and fname != "XinSheYang3":
+                    ctx.count("earlier_results_rechecked_after_a_later_evaluation")
+                    try:
+                        now_ = [float(v_) for v_ in prev_[0]]
+                    except Exception:
+                        now_ = None
+                    if now_ != prev_[1]:
+                        ctx.violation("C15/%s/earlier_result_changed" % fname, "the cost returned for an earlier point changed when another point "
+                                      "was evaluated on the same problem object (was %r, now %r)" % (prev_[1], now_), wit)
+                        state["bad"] = True
+                        return None
+                try:
+                    state["kept"] = (res, [float(v_) for v_ in res])
+                except Exception:
+                    state["kept"] = None
             except Exception as e:
                 ctx.violation("C15/%s/totality/exception/%s" % (fname, type(e).__name__),
                               "%s.evaluate raised %r on a point of its box" % (fname, e), wit)
